@@ -208,3 +208,15 @@ Proof.
   intros l r H. apply bool_iff_eq. rewrite (tuple_eq_spec Z.eqb Z.eqb_eq 0 l r H).
   unfold zlist_eq_spec. destruct (list_eq_dec Z.eq_dec l r); split; congruence.
 Qed.
+
+Lemma tuple_init_agrees : forall n, tuple_init_m n = tuple_init_spec n.
+Proof.
+  intros n. unfold tuple_init_m, tuple_init_spec.
+  assert (Hk : Z.rem (Z.abs n) 9 = Z.abs n mod 9) by (apply Z.rem_mod_nonneg; lia).
+  assert (Ht : (if 0 <=? n then n else n + 1) = Z.quot (2 * n + 1) 2).
+  { destruct (Z.leb_spec 0 n) as [H|H].
+    - apply Z.quot_unique with (r := 1); lia.
+    - replace (2 * n + 1) with (- (2 * (- n - 1) + 1)) by lia. rewrite Z.quot_opp_l by lia.
+      rewrite <- (Z.quot_unique (2 * (- n - 1) + 1) 2 (- n - 1) 1); lia. }
+  rewrite Hk, Ht. reflexivity.
+Qed.
